@@ -8,12 +8,18 @@ the engine), and equality with the same query run with the optimizer disabled (n
 import itertools, json
 from lib import core, runner, sqlutil as U
 
+def _day(k):
+    """the k-th day after 2024-01-10 (k may be negative: constants below every key)"""
+    import datetime
+    return (datetime.date(2024, 1, 10) + datetime.timedelta(days=k)).isoformat()
+
+
 KEYTYPES = {
     "int": ("int", lambda k: k, lambda k: str(k)),
     "bigint": ("bigint", lambda k: k, lambda k: str(k)),
     "smallint": ("smallint", lambda k: k, lambda k: str(k)),
     "varchar": ("varchar", lambda k: f"k{k:03d}", lambda k: f"'k{k:03d}'"),
-    "date": ("date", lambda k: f"2024-{1 + k // 28:02d}-{1 + k % 28:02d}", lambda k: f"date '2024-{1 + k // 28:02d}-{1 + k % 28:02d}'"),
+    "date": ("date", lambda k: _day(k), lambda k: f"date '{_day(k)}'"),
 }
 # keys: duplicates around positions 15/16/17 (block boundary for 4-byte keys), gaps (odd keys absent above 40)
 KEYS1 = [0, 1, 2, 3, 4, 5, 6, 7, 8, 9, 10, 11, 12, 13, 14, 15, 15, 15, 16, 17, 18, 20, 20, 22, 24, 26, 28, 30, 31, 31, 31, 31, 32, 33, 34, 36, 38, 40, 42, 44, 46, 48, 50]
@@ -72,6 +78,14 @@ def preds(tier):
                 continue
             out.append((f"k {op} {{c}} and {RESIDUALS[resid][0]}", [(op, c)], resid, c))
             out.append((f"{RESIDUALS[resid][0]} and k {op} {{c}}", [(op, c)], resid, c))
+    # bounds whose constant has another numeric type than the key (narrower / wider integers, a fraction): integer keys only
+    for op, c in [("<=", 20), ("<", 31), (">=", 15), (">", 16), ("=", 15)]:
+        for ty in ("smallint", "bigint", "int"):
+            out.append((f"k {op} cast({{c}} as {ty})", [(op, c)], None, c))
+    out.append(("k >= cast({c1} as smallint) and k <= cast({c2} as smallint)", [(">=", 15), ("<=", 31)], None, (15, 31)))
+    out.append(("k > {c1} and k < cast({c2} as bigint)", [(">", 14), ("<", 32)], None, (14, 32)))
+    out.append(("k <= {c} + 0.5", [("<=", 20)], None, 20))
+    out.append(("k > {c} - 0.5", [(">", 15.5)], None, 16))
     out.append(("k > {c1} and k < {c2} and v >= 2 and v < 8", [(">", 14), ("<", 32)], "2<=v<8", (14, 32)))
     out.append(("v >= 2 and k > {c1} and v < 8 and k < {c2}", [(">", 14), ("<", 32)], "2<=v<8", (14, 32)))
     for c in [15, 31, 50]:
@@ -129,6 +143,8 @@ def build(case, tier):
     nsetup = len(steps)
     qs = []
     for (tmpl, conds, resid, cc) in preds(tier):
+        if ("cast(" in tmpl or "0.5" in tmpl) and ktype not in ("int", "bigint", "smallint"):
+            continue
         if isinstance(cc, tuple):
             where = tmpl.format(c1=lit(cc[0]), c2=lit(cc[1]))
         else:
